@@ -20,6 +20,8 @@
 #include <ufw/allocator.h>
 #include <ufw/endpoints.h>
 #include <ufw/register-protocol.h>
+#include <ufw/crc/crc16-arc.h>
+#include <ufw/persistent-storage.h>
 #include <ufw/register-table.h>
 
 #include "driver.h"
@@ -50,6 +52,47 @@ static RegisterAccess cb_write(RegisterArea *a, const RegisterAtom *src, Registe
     memcpy(store[i] + off, src, n * sizeof(RegisterAtom));
     return rv;
 }
+/* ---- area kind 2: storage is a checksummed persistent-storage instance on a medium (composition X04) */
+static PersistentStorage PS;
+static unsigned char *ps_medium = NULL;
+static size_t ps_msize = 0;
+static int ps_area = -1;
+static long long ps_oob = 0;
+static size_t ps_rd(void *dst, uint32_t a, size_t n)
+{
+    if ((size_t)a + n > ps_msize) { ps_oob++; return 0; }
+    memcpy(dst, ps_medium + a, n);
+    return n;
+}
+static size_t ps_wr(uint32_t a, const void *src, size_t n)
+{
+    if ((size_t)a + n > ps_msize) { ps_oob++; return 0; }
+    memcpy(ps_medium + a, src, n);
+    return n;
+}
+static uint16_t ps_crc(const unsigned char *d, size_t n, uint16_t init) { return ufw_crc16_arc(init, d, n); }
+static RegisterAccess ps_map(const RegisterArea *a, RegisterOffset o, PersistentAccess pa)
+{
+    RegisterAccess rv = REG_ACCESS_RESULT_INIT;
+    if (pa == PERSISTENT_ACCESS_SUCCESS) return rv;
+    rv.code = pa == PERSISTENT_ACCESS_INVALID_DATA ? REG_ACCESS_INVALID : pa == PERSISTENT_ACCESS_IO_ERROR ? REG_ACCESS_IO_ERROR : REG_ACCESS_RANGE;
+    rv.address = a->base + o;
+    return rv;
+}
+static RegisterAccess ps_read(const RegisterArea *a, RegisterAtom *dst, RegisterOffset off, RegisterOffset n)
+{
+    return ps_map(a, off, persistent_fetch_part(dst, &PS, (size_t)off * sizeof(RegisterAtom), (size_t)n * sizeof(RegisterAtom)));
+}
+static RegisterAccess ps_write(RegisterArea *a, const RegisterAtom *src, RegisterOffset off, RegisterOffset n)
+{
+    return ps_map(a, off, persistent_store_part(&PS, src, (size_t)off * sizeof(RegisterAtom), (size_t)n * sizeof(RegisterAtom)));
+}
+/* the logical storage of a persistent-backed area is the data section on the medium */
+static void ps_sync(void)
+{
+    if (ps_area >= 0) memcpy(store[ps_area], ps_medium + 3 + 2, (size_t)A[ps_area].size * sizeof(RegisterAtom));
+}
+
 static bool validator(const RegisterEntry *e, RegisterValue v)
 {
     uint64_t bits = 0;
@@ -120,6 +163,7 @@ static RegisterAtom word2atom(long long w)
 }
 static void image(Ev *ev)
 {
+    ps_sync();
     for (int i = 0; i < na; i++)
         for (long long k = 0; k < A[i].size; k++) obs(ev, atom2word(store[i][k]));
 }
@@ -199,6 +243,7 @@ void adapter_exec(Ev *ev)
     if (ev_is(ev, "tinit")) {
         drop();
         int p = 0;
+        ps_area = -1; ps_oob = 0;
         be = (int)ev->a[p++];
         na = (int)ev->a[p++];
         areas = xblock(sizeof(RegisterArea) * (size_t)(na + 1));
@@ -215,6 +260,21 @@ void adapter_exec(Ev *ev)
                 areas[i].mem = store[i];
                 areas[i].read = reg_mem_read;
                 areas[i].write = A[i].hasw ? reg_mem_write : NULL;
+            } else if (A[i].kind == 2) {
+                /* checksummed persistent storage at medium address 3 (CRC-16/ARC, 2 octets), valid all-zero image to start with */
+                ps_area = i;
+                ps_msize = 3 + 2 + sizeof(RegisterAtom) * (size_t)A[i].size + 3;
+                if (ps_medium) xfree(ps_medium);
+                ps_medium = xblock(ps_msize);
+                memset(ps_medium, 0xee, ps_msize);
+                persistent_init(&PS, sizeof(RegisterAtom) * (size_t)A[i].size, ps_rd, ps_wr);
+                persistent_sum16(&PS, ps_crc, 0);
+                persistent_place(&PS, 3);
+                memset(store[i], 0, sizeof(RegisterAtom) * (size_t)A[i].size);
+                (void)persistent_store(&PS, store[i]);
+                areas[i].mem = NULL;
+                areas[i].read = ps_read;
+                areas[i].write = A[i].hasw ? ps_write : NULL;
             } else {
                 memset(store[i], 0, sizeof(RegisterAtom) * (size_t)A[i].size); /* callback storage: the harness' own, starts at zero */
                 areas[i].mem = NULL;
@@ -374,6 +434,18 @@ void adapter_exec(Ev *ev)
         if (cls(r.code) != 2) { image(ev); obs(ev, -7); touchvec(ev); }
         return;
     }
+    if (ev_is(ev, "pvalidate")) {
+        /* a fresh instance on the same medium validates; guard octets around the region must be intact */
+        if (ps_area < 0) { obs(ev, -1); return; }
+        PersistentStorage q;
+        persistent_init(&q, sizeof(RegisterAtom) * (size_t)A[ps_area].size, ps_rd, ps_wr);
+        persistent_sum16(&q, ps_crc, 0);
+        persistent_place(&q, 3);
+        long long guards = 0;
+        for (size_t i = 0; i < 3; i++) if (ps_medium[i] != 0xee || ps_medium[ps_msize - 1 - i] != 0xee) guards++;
+        obs(ev, (long long)persistent_validate(&q)); obs(ev, ps_oob); obs(ev, guards);
+        return;
+    }
     if (ev_is(ev, "default")) {
         RegisterValue v; memset(&v, 0, sizeof v);
         RegisterAccess r = register_default(&T, (RegisterHandle)ev->a[0], &v);
@@ -440,7 +512,14 @@ void adapter_exec(Ev *ev)
     if (ev_is(ev, "corrupt")) {
         long long addr = ev->a[0];
         for (int i = 0; i < na; i++)
-            if (addr >= A[i].base && addr < A[i].base + A[i].size) store[i][addr - A[i].base] = word2atom(ev->a[1]);
+            if (addr >= A[i].base && addr < A[i].base + A[i].size) {
+                store[i][addr - A[i].base] = word2atom(ev->a[1]);
+                if (i == ps_area) {   /* out-of-band: data and checksum rewritten consistently (the medium itself stays valid) */
+                    ps_sync();
+                    RegisterAtom w = word2atom(ev->a[1]);
+                    (void)persistent_store_part(&PS, &w, (size_t)(addr - A[i].base) * sizeof(RegisterAtom), sizeof(RegisterAtom));
+                }
+            }
         obs(ev, 0); image(ev);
         return;
     }
